@@ -95,7 +95,15 @@ def scenario(bins, idx, rng):
                                 err = "server" if (e.get("type") == "server" or "lock" in (str(e.get("type", "")) + " " + str(e.get("message", ""))).lower()) else e.get("type", "")
                         except ValueError:
                             pass
-                    events.append({"e": "exit", "p": n, "rc": p.returncode, "lockerr": p.returncode != 0 and err == "server", "ts": ts})
+                    xe = {"e": "exit", "p": n, "rc": p.returncode, "lockerr": p.returncode != 0 and err == "server", "ts": ts}
+                    if api == "run" and p.returncode == 0:
+                        # which targets the run says it covered (its result document)
+                        try:
+                            doc = json.load(open(os.path.join(fx.root, "fr-%d.out" % n)))
+                            xe["ran"] = sorted(t.split("/") for g in doc["results"][0]["target_groups"] for t in g.keys())
+                        except (OSError, ValueError, KeyError, IndexError, TypeError, AttributeError):
+                            pass
+                    events.append(xe)
                 try:
                     for l in open(trace):
                         try:
@@ -232,14 +240,14 @@ def stage(chk, bins, pid, n):
             if ok:
                 acc += 1
                 continue
-            if rec.get("readers"):
-                # a rejection may come from a reader alone (beyond the listed properties): judge the lock discipline on
-                # the trace without the readers, and report the readers as drift
-                bare = dict(rec, events=[e for e in rec["events"] if e.get("p") not in rec["readers"]], readers=[])
+            if rec.get("readers") or any("ran" in e for e in rec["events"]):
+                # a rejection may come from a reader or from a run's covered targets alone (beyond what this stage
+                # decides): judge the lock discipline on the trace without them, and report them as drift
+                bare = dict(rec, events=[{k: v for k, v in e.items() if k != "ran"} for e in rec["events"] if e.get("p") not in rec["readers"]], readers=[])
                 ok2, _ = validate(bare, tmp)
                 if ok2:
                     acc += 1
-                    chk.notes.append({"MODEL-DRIFT": "free-running trace %d: a concurrent reader (`result show` / `analyze`) answered something no instant of the explained behaviour offers" % rec["idx"],
+                    chk.notes.append({"MODEL-DRIFT": "free-running trace %d: a concurrent reader (`result show` / `analyze`) answered something no instant of the explained behaviour offers, or a run covered other targets than the ones affected when it read the repository" % rec["idx"],
                                       "readers": [e for e in rec["events"] if e.get("e") in ("shown", "answered")]})
                     print("NOTE: MODEL-DRIFT free-running trace %d: concurrent reader not explained" % rec["idx"])
                     continue
